@@ -44,6 +44,7 @@ def configs(tier):
     for kind in ("positive", "complex", "mixed"):
         out.append({"rbm": "sample", "kind": kind, "nv": 2, "nh": 2, "na": 1})
     out.append({"generic": "every shape"})
+    out.append({"lean": "size-generic lemmas"})
     return out
 
 
@@ -58,6 +59,9 @@ def _c(rows):
 
 
 def run_config(ctx, cfg):
+    if cfg.get("lean"):
+        from contracts import leanlink
+        return leanlink.run(ctx, "C05")
     if cfg.get("generic"):
         from contracts import gsets
         return gsets.run(ctx, "C05")
